@@ -2050,7 +2050,29 @@ def c14_build(ctx):
             cases.append(mk("type:" + name, v, group="enums", meta={"exp": True}))
         for v in bad:
             cases.append(mk("type:" + name, v, group="enums", meta={"exp": False}))
-    return cases
+    # the rules do not depend on the order in which the attributes are written: every text case again with its
+    # attribute list reversed and once shuffled (a validation that runs inside the attribute loop would depend on it)
+    extra = []
+    for c in cases:
+        if not (c.op.startswith("tag:") or c.op == "master"):
+            continue
+        lines = c.payload.split("\n")
+        for mode in ("reversed", "shuffled"):
+            out = []
+            changed = False
+            for ln in lines:
+                new = ln
+                for pfx in C12_ATTR_TAGS:
+                    if ln.startswith(pfx):
+                        pairs = c12_split_attrs(ln[len(pfx):])
+                        if pairs and len(pairs) > 1 and len({k for k, _ in pairs}) == len(pairs):
+                            pairs = list(reversed(pairs)) if mode == "reversed" else ctx.rng.sample(pairs, len(pairs))
+                            new = pfx + ",".join(k + "=" + v for k, v in pairs)
+                out.append(new)
+                changed = changed or new != ln
+            if changed:
+                extra.append(mk(c.op, "\n".join(out), group=c.group + "-" + mode, meta=c.meta))
+    return cases + extra
 
 
 def c14_oracle(ctx, cases, impl, model):
